@@ -1,7 +1,7 @@
 #!/bin/bash
 # usage: tools/par_seeded.sh <slot> <tier> <seeded-or-benign-dir> [ID ...]
 # Like run_seeded.sh, but never touches /repo: slot <slot> owns a scratch copy of /repo
-# (/tmp/ps/<slot>/repo, HEAD) and of /verif (/tmp/ps/<slot>/verif, with its own build output that is
+# ($PS_BASE/<slot>/repo, HEAD; PS_BASE defaults to /tmp/ps) and of /verif ($PS_BASE/<slot>/verif, with its own build output that is
 # kept between runs of the same slot), applies the patch to the copy and runs the checks there
 # (VERIF_REPO names the copy).  Several slots can run side by side.  Results go to
 # <dir>/result.txt; evidence and replay files of these runs stay in the scratch copy.
@@ -12,7 +12,7 @@ ROOT=$(cd "$(dirname "$0")/.." && pwd)
 IDS="$*"
 [ -z "$IDS" ] && IDS=$(basename "$D" | cut -d- -f1)
 [ -f "$D/also.txt" ] && [ $# -eq 0 ] && IDS="$IDS $(cat "$D/also.txt")"
-S=/tmp/ps/$SLOT
+S=${PS_BASE:-/tmp/ps}/$SLOT
 mkdir -p $S/repo $S/verif
 # committed state of both (so that edits in progress do not leak into the runs); files that differ are
 # rewritten with the current time, never with an older one: cargo only rebuilds what is newer than its output
